@@ -43,6 +43,20 @@ int main() {
       printf("a fixed rectangle with nothing overlapping it (%d other rectangle(s), thirdPass=%d) moved from (100,45) to (%g,%g)\n", others, third, frs[0]->getCentreX(), frs[0]->getCentreY()); bad++; }
     for (size_t k = 0; k < frs.size(); ++k) delete frs[k];
   }
+  // two fixed rectangles that the first (satisfy) phase merges into one block with the free ones: the refinement must separate the block
+  // again and its result must be what comes back (fixed rectangles move by less than 1% of the average size)
+  for (int third = 0; third < 2; ++third) {
+    const double Q[4][4] = {{-1.0, 1.0, 0.0, 10.0}, {0.3, 1.3, 6.0, 9.0}, {0.1, 1.7, 0.5, 4.0}, {1.1, 2.1, 1.0, 4.5}};
+    Rectangles qs; for (int i = 0; i < 4; ++i) qs.push_back(new Rectangle(Q[i][0], Q[i][1], Q[i][2], Q[i][3]));
+    std::set<unsigned> qf; qf.insert(1); qf.insert(3);
+    removeoverlaps(qs, qf, third != 0);
+    double avg = 0; for (int i = 0; i < 4; ++i) avg += (Q[i][1] - Q[i][0] + Q[i][3] - Q[i][2]) / 8.0;
+    for (int i = 1; i < 4; i += 2) {
+      double dx = qs[i]->getCentreX() - (Q[i][0] + Q[i][1]) / 2, dy = qs[i]->getCentreY() - (Q[i][2] + Q[i][3]) / 2;
+      if (std::fabs(dx) > 0.01 * avg || std::fabs(dy) > 0.01 * avg) { printf("fixed rectangle %d moved by (%g,%g) (thirdPass=%d); 1%% of the average size is %g\n", i, dx, dy, third, 0.01 * avg); bad++; }
+    }
+    for (size_t k = 0; k < qs.size(); ++k) delete qs[k];
+  }
   const double B[4][2] = {{0, 0}, {2, 3}, {0.5, 0.25}, {0, 0}};
   const double R[6][4] = {{0,10,0,10},{5,15,5,15},{5,15,0,10},{20,30,0,10},{22,28,2,8},{0,10,0,10}};
   for (int round = 0; round < 4; ++round) {
@@ -254,6 +268,14 @@ def jobs(tier):
                       domain="one arbitrary index, every centre (all doubles, through an uninterpreted getCentreX/Y); projection of the loop body onto its desiredPosition statement "
                              "(%d statement(s) kept; premise checked every run: rectangle.cpp writes desiredPosition nowhere else)" % pb.kept_statements,
                       expect=[r'w_head_body\.postcondition']))
+    # ---- removeoverlaps' solver: Solver::solve() hands back the positions of the state AFTER refinement (the driver obligation of C01, which
+    #      C09's "fixed rectangles barely move" rests on: satisfy() alone leaves over-merged blocks in which fixed rectangles are dragged along)
+    for j in c01._jobs(tier, "libvpsc"):
+        if j.name == "solve":
+            j.name = "solver_returns_refined_result"
+            j.replay = replay_c09
+            j.note = (j.note + " " if j.note else "") + "[job of the C01 check, run here as well: removeoverlaps calls vpsc::Solver::solve()]"
+            js.append(j)
     return js
 
 
